@@ -40,7 +40,9 @@ Inductive cexp :=
 | ANil
 | ACons (e rest : cexp)
 | Opaque (s : string)              (* source text the translator could not embed *)
-| Declined.                        (* the folder leaves the call in place *)
+| Declined                         (* the folder leaves the call in place *)
+| Guard (g e : cexp).              (* `if (g) break;` before the result e: when g is non-zero the folder
+                                      leaves the call in place (conditional decline), otherwise e *)
 
 Record row := mkrow { rname : string; rargs : list fty; rret : fty; rres : fty; rexp : cexp }.
 Record sigrow := mksig { sname : string; sargs : list fty; sret : fty; ssfx : bool }.
@@ -175,6 +177,7 @@ Fixpoint ty_of (e : cexp) : cty :=
       else join (ty_of a) (ty_of b)
   | Cond _ a b => join (ty_of a) (ty_of b)
   | Call f _ => match libfn_of f with Some _ => S32 | None => PTR end
+  | Guard _ e => ty_of e
   | _ => PTR
   end.
 
@@ -228,6 +231,7 @@ Fixpoint ev (args : list Z) (e : cexp) : Z :=
       | Some g => libfn_ev g (conv (ty_of a) S32 (ev args a))
       | None => 0
       end
+  | Guard _ e => ev args e
   | _ => 0
   end.
 
@@ -263,9 +267,20 @@ Fixpoint defd (args : list Z) (e : cexp) : bool :=
                   && (-1 <=? conv (ty_of a) S32 (ev args a)) && (conv (ty_of a) S32 (ev args a) <=? 255)
       | None => false
       end
+  | Guard g e => is_int (ty_of g) && defd args g && (ev args g =? 0) && defd args e
   | _ => false
   end.
 
+(* the folder leaves the call in place on these operands *)
+Fixpoint declines (args : list Z) (e : cexp) : bool :=
+  match e with
+  | Declined => true
+  | Guard g a => is_int (ty_of g) && defd args g && (negb (ev args g =? 0) || declines args a)
+  | _ => false
+  end.
+
+(* `sem` is None both where the C expression is undefined and where a guard
+   makes the folder decline: in either case nothing is claimed about a folded value *)
 Definition sem (args : list Z) (e : cexp) : option Z :=
   if defd args e then Some (ev args e) else None.
 
@@ -294,6 +309,7 @@ Fixpoint cexp_eqb (x y : cexp) : bool :=
   | Call f a, Call g b => String.eqb f g && cexp_eqb a b
   | ANil, ANil => true
   | ACons a b, ACons c d => cexp_eqb a c && cexp_eqb b d
+  | Guard a b, Guard c d => cexp_eqb a c && cexp_eqb b d
   | _, _ => false
   end.
 
@@ -308,6 +324,7 @@ Fixpoint strip (e : cexp) : cexp :=
   | Cond a b c => Cond (strip a) (strip b) (strip c)
   | Call f a => Call f (strip a)
   | ACons a b => ACons (strip a) (strip b)
+  | Guard a b => Guard (strip a) (strip b)
   | _ => e
   end.
 
